@@ -136,6 +136,9 @@ pub enum E {
     IsSomeAnd(Box<E>, String, Box<E>),
     /// lean name, arguments, callee returns `Result`?
     Call(String, Vec<E>, bool),
+    /// an inlined call of a non-whitelisted helper: (parameter, argument) pairs evaluated left to
+    /// right, then the callee's body; a `Return` inside the body returns from the CALLEE
+    Inline(Vec<(String, E)>, Box<E>),
     If(Box<E>, Box<E>, Box<E>),
     Match(Box<E>, Ty, Vec<Arm>),
     Let(Pat, Box<E>, Box<E>),
@@ -193,6 +196,8 @@ pub struct FnDef {
     pub body: E,
     pub deps: Vec<String>,
     pub errs: Vec<String>,
+    /// header lines of the helpers inlined into this target
+    pub inlined: Vec<(String, String)>,
     pub hash: String,
     pub file: String,
     pub line: usize,
